@@ -23,19 +23,23 @@ def ref_get(key: str, o: Any):
     """independent dotted lookup: ('found', v) | ('absent',) | ('type',)"""
     cur = o
     for seg in key.split("."):
-        idx = int(seg) if seg.isdigit() and seg.isascii() else None
+        # a segment that reads as a Python integer literal (sign, underscores, any decimal digits) is an index
+        try:
+            idx = int(seg)
+        except ValueError:
+            idx = None
         if isinstance(cur, dict):
             if idx is not None or seg not in cur:
                 return ("absent",)
             cur = cur[seg]
         elif isinstance(cur, list):
-            if idx is None or idx >= len(cur):
+            if idx is None or not (-len(cur) <= idx < len(cur)):
                 return ("absent",)
             cur = cur[idx]
         elif isinstance(cur, str):
             if idx is None:
                 return ("type",)
-            if idx >= len(cur):
+            if not (-len(cur) <= idx < len(cur)):
                 return ("absent",)
             cur = cur[idx]
         else:
@@ -172,6 +176,7 @@ def c05_programs(rng, tier) -> List[Item]:
     items += lifted_falsy_items(rng, sizes(tier, 15, 100))
     items += shared_constant_items(rng, sizes(tier, 90, 450))
     items += shared_argument_items(rng, sizes(tier, 30, 150))
+    items += collections_api_items(rng, sizes(tier, 45, 180))
     items += interface_items(rng, sizes(tier, 12, 60))
     items += dataset_class_items(rng, sizes(tier, 30, 150))
     return items
@@ -296,6 +301,41 @@ def shared_argument_items(rng, n) -> List[Item]:
             root = P.apply(P.option("A"), P.partial(P.fnvalue(fname), kw=[("u", e), ("v", e)]))
         for o in [{"A": 1, "S": {"X": [1]}, "K": "x"}, {"A": 2, "S": {"X": [1]}, "K": "y"}, {"A": 1, "S": {"X": [1]}, "K": "x"}]:
             P.evaluate(root, o)
+        items.append((P.to_json(), {}))
+    return items
+
+
+def collections_api_items(rng, n) -> List[Item]:
+    """the collection builders of `labrea.collections` (`evaluatable_list / _tuple / _set / _dict` and their `Dataset…`
+    aliases) over members that are evaluatables and plain constants in every interleaving: the result has the members'
+    values in the order written (for a dict: the entries in the order written — observed through `str()` of the result,
+    which shows the order), a fresh container per evaluation"""
+    items = []
+    for i in range(n):
+        P = Prog()
+        consts = [1, "c", None, [1, 2], {"k": 0}]
+        def member(j):
+            r = (i + j) % 4
+            if r == 0:
+                return P.value(copy.deepcopy(consts[(i + j) % len(consts)]))
+            if r == 1:
+                return P.option("A")
+            if r == 2:
+                return P.option("B", dflt=P.value(0))
+            return P.dataset([("a", P.option("A"))], cache=P.new_cache("nocache"))
+        kind = ["dict", "list", "tuple", "dict", "set"][i % 5]
+        nm = 2 + (i // 5) % 3
+        if kind == "dict":
+            keys = rng.sample(["a", "b", "c", "z", "m"], nm)
+            root = P.api_dict([(k, member(j)) for j, k in enumerate(keys)])
+        elif kind == "set":
+            root = P.api_collection("set", [P.option("A"), P.value(1), P.option("B", dflt=P.value("x"))][:nm])
+        else:
+            root = P.api_collection(kind, [member(j) for j in range(nm)])
+        shown = P.apply(root, P.fnvalue("tostr")) if kind != "set" else root
+        top = [lambda: shown, lambda: P.collection("list", [shown, root]), lambda: P.dataset([("c", shown)], cache=P.new_cache("nocache"))][i % 3]()
+        for o in [{"A": 1}, {"A": "x", "B": 2}, {}, {"A": 1}]:
+            P.evaluate(top, o, **({"mutate_result": True} if i % 2 and kind != "set" else {}))
         items.append((P.to_json(), {}))
     return items
 
@@ -582,6 +622,37 @@ def function_slot_items(rng, n) -> List[Item]:
     return items
 
 
+def cached_dataset_class_items(rng, n) -> List[Item]:
+    """dataset classes (plain, derived, with underscore-named and upper-case members) under a cache — `cached(cls)`, a
+    cached dataset taking the class as an argument: dictionaries that differ in the key of ANY member give the value of
+    their own dictionary"""
+    items = []
+    for i in range(n):
+        P = Prog()
+        keys: List[str] = []
+        base = dataset_class(P, rng, "Base", 3, keys=keys, override=["_rate"] if i % 2 else [], kinds=("option", "dataset"))
+        cls = base if i % 3 else dataset_class(P, rng, "Sub", 2, bases=[base], keys=keys, override=["_h"], kinds=("option",))
+        root = P.cached(cls) if i % 2 else P.dataset([("rec", cls)])
+        full: Dict[str, Any] = {}
+        for k in keys:
+            _put(full, k, 1)
+        seq = [copy.deepcopy(full)]
+        for k in keys:
+            o = copy.deepcopy(full)
+            _put(o, k, 2)
+            seq.append(o)
+        seq.append(copy.deepcopy(full))
+        pairs, ke = [], []
+        for o in seq:
+            P.op("keys", root, sort_json(o))
+            P.evaluate(root, sort_json(o))
+            P.evaluate(root, sort_json(o), cache_off=True)
+            pairs.append((len(P.ops) - 2, len(P.ops) - 1))
+            ke.append((len(P.ops) - 3, len(P.ops) - 2))
+        items.append((P.to_json(), {"pairs": pairs, "ke": ke, "root": root}))
+    return items
+
+
 def c01_programs(rng, tier) -> List[Item]:
     items = corpus_items("C01")
     cfg = Cfg(raising=False)
@@ -590,6 +661,7 @@ def c01_programs(rng, tier) -> List[Item]:
     items += section_inner_items(rng, sizes(tier, 24, 120))
     items += cached_namespace_items(rng, sizes(tier, 18, 90))
     items += function_slot_items(rng, sizes(tier, 24, 96))
+    items += cached_dataset_class_items(rng, sizes(tier, 18, 90))
     return items
 
 
@@ -895,9 +967,14 @@ def interface_items(rng, n) -> List[Item]:
     for i in range(n):
         P = Prog()
         disp = P.option("IMPL", bare=True) if i % 3 else P.option("IMPL", dflt=P.value("base"))
+        # (a member whose default chooses a branch by a dataset that needs no option: defining the interface runs nothing)
+        P.const_fn(f"level{i}", "x")
+        lvl = P.dataset([("m", P.option("M", dflt=P.value(0)))], fn_name=f"level{i}", cache=P.new_cache("nocache"))
         mem = P.interface(disp, [("table", "const", rng.choice(["t0", 0, None, [1]])),
                                  ("rows", "fn", [("a", P.option("A"))]),
                                  ("limit", "eval", P.option("LIMIT", dflt=P.value(10))),
+                                 ("mode", "eval", P.switch(lvl, [("x", P.value("mode-x"))], P.value("mode-d"))),
+                                 ("pick", "fn", [("p", P.case(lvl, [(P.fnvalue("eq", "x"), P.value(1))], P.value(2)))]),
                                  ("extra", "ann", None)])
         impl = P.implement(mem, ["fast"] if i % 2 else ["fast", "quick"],
                            [("table", "fn", [("b", P.option("B", dflt=P.value(0)))]),
@@ -906,7 +983,7 @@ def interface_items(rng, n) -> List[Item]:
         left = P.dataset([("t", mem["table"]), ("r", mem["rows"])])
         right = P.dataset([("t", mem["table"]), ("l", mem["limit"])])
         top = P.dataset([("x", left), ("y", right)])
-        root = [top, mem["table"], P.collection("list", [mem["table"], mem["extra"], mem["table"]])][i % 3]
+        root = [top, mem["table"], P.collection("list", [mem["table"], mem["extra"], mem["table"], mem["mode"], mem["pick"]])][i % 3]
         repeats = []
         for o in [{"IMPL": "fast", "A": 1}, {"A": 1}, {"IMPL": "quick", "A": 2, "B": 1}, {"IMPL": "other", "A": 1}]:
             P.evaluate(root, o)
@@ -1077,6 +1154,31 @@ def map_prefix_items(rng, n) -> List[Item]:
     return items
 
 
+def coalesce_domain_items(rng, n) -> List[Item]:
+    """a coalesce whose earlier member is PRESENT but cannot be used (an Option with a constant `domain=` holding a value
+    outside it, an Option holding a value of the wrong shape for what follows) next to members that read other keys:
+    keys() are those of the member that is actually evaluated, so restricting to them changes nothing.  (Template-free
+    dictionaries: the syntactic triggers of the known findings about catch positions do not apply — `classify_off`.)"""
+    items = []
+    for i in range(n):
+        P = Prog()
+        first = P.option("ENGINE", dom=P.value(["pg", "lite"]))
+        second = [lambda: P.option("SITE.DEFAULT"), lambda: P.option("SITE.DEFAULT", dflt=P.value("d")),
+                  lambda: P.collection("list", [P.option("SITE.DEFAULT"), P.option("B", dflt=P.value(0))])][i % 3]()
+        members = [first, second] + ([P.value("last")] if i % 2 else [])
+        c = P.coalesce(members)
+        root = [lambda: c, lambda: P.dataset([("e", c)], cache=P.new_cache("nocache")), lambda: P.cached(c)][(i // 3) % 3]()
+        ke = []
+        for o in [{"ENGINE": "pg", "SITE": {"DEFAULT": "x"}}, {"ENGINE": "oracle", "SITE": {"DEFAULT": "x"}}, {"SITE": {"DEFAULT": "y"}},
+                  {"ENGINE": "mysql"}, {"ENGINE": 5, "SITE": {"DEFAULT": "z"}, "B": 1}, {}]:
+            P.raw_op(op="reset")
+            P.op("keys", root, o)
+            P.op("evaluate", root, o)
+            ke.append((len(P.ops) - 2, len(P.ops) - 1))
+        items.append((P.to_json(), {"ke": ke, "root": root, "classify_off": True}))
+    return items
+
+
 def c03_programs(rng, tier) -> List[Item]:
     items = corpus_items("C03")
     cfg = Cfg(raising=False, effects=True)
@@ -1085,6 +1187,8 @@ def c03_programs(rng, tier) -> List[Item]:
     items += dataset_class_items(rng, sizes(tier, 30, 150))
     items += cached_namespace_items(rng, sizes(tier, 18, 90))
     items += function_slot_items(rng, sizes(tier, 24, 96))
+    items += cached_dataset_class_items(rng, sizes(tier, 18, 90))
+    items += coalesce_domain_items(rng, sizes(tier, 18, 72))
     return items
 
 
@@ -1140,7 +1244,7 @@ def c03_phase2(items, impl, model, rng, tier) -> List[Item]:
                 chk["perturbed"].append({"keys": b3 + 1, "eval": b3 + 2, "fp": b3 + 4, "o": o3, "mode": mode})
             checks.append(chk)
         if checks:
-            out.append((p2, {"c03": checks, "phase": 2}))
+            out.append((p2, dict({"c03": checks, "phase": 2}, **({"classify_off": True} if meta.get("classify_off") else {}))))
     return out
 
 
@@ -2033,6 +2137,7 @@ def c09_programs(rng, tier) -> List[Item]:
         items.append((P.to_json(), meta))
     items += param_name_items(rng, sizes(tier, 44, 220))
     items += reused_dict_wrapper_items(rng, sizes(tier, 32, 96))
+    items += index_segment_items(rng, sizes(tier, 30, 90))
     return items
 
 
@@ -2112,6 +2217,37 @@ def fresh_pairs_oracle(prog, meta, impl):
     return out
 
 
+INDEX_SEGMENTS = ["L.-1", "L.-2", "L.+1", "L.-0", "L.1_0", "L.-9", "L.2.-1", "L.2.0", "S.-1", "L.01"]
+
+
+def index_segment_items(rng, n) -> List[Item]:
+    """dotted keys whose segments read as integer literals beyond plain digits — negative indices (`L.-1`), a sign, an
+    underscore, a leading zero; also below a section, where an integer segment never matches — in templates, templated
+    option values and Option keys: whenever the substitution succeeds, keys() / explain() succeed and cover what it
+    read; a missing-key failure only when the independent lookup finds the key absent.  (Oracle only: these segments
+    are outside the key universe of the Lean model, whose `segIndex?` reads plain digits.)"""
+    items = []
+    for i in range(n):
+        P = Prog()
+        key = INDEX_SEGMENTS[i % len(INDEX_SEGMENTS)]
+        t = ["{%s}", "v={%s}!", "{%s}{A}"][(i // len(INDEX_SEGMENTS)) % 3] % key
+        tn = P.template(t)
+        on = P.option("W", dflt=P.template(t))
+        kn = P.option(key, dflt=P.value("d") if i % 2 else None)
+        meta = {"c09": [], "t": t, "no_model": True}
+        for o in [{"L": ["a", "b", ["c", "e"]], "A": 1, "S": {"-1": "neg"}}, {"L": ["only"], "A": 2}, {"L": [], "A": 3}, {"A": 4},
+                  {"L": ["x", "y", ["z"]], "A": 5, "W": "{%s}" % key}]:
+            for node in (tn, on, kn):
+                for op in ("evaluate", "keys", "explain"):
+                    P.op(op, node, o)
+                if node is not kn:
+                    meta["c09"].append({"e": len(P.ops) - 3, "k": len(P.ops) - 2, "x": len(P.ops) - 1, "node": node})
+                else:
+                    meta.setdefault("keyopt", []).append({"e": len(P.ops) - 3, "k": len(P.ops) - 2, "x": len(P.ops) - 1, "key": key})
+        items.append((P.to_json(), meta))
+    return items
+
+
 def ref_template_keys(s: str) -> List[str]:
     import re
     return list(dict.fromkeys(re.findall(r"(?<!\\){([^\\]*?)}", s)))
@@ -2188,6 +2324,19 @@ def _ref_param(nodes, nid, o, reads):
 
 def c09_oracle(prog, meta, impl, model):
     out = fresh_pairs_oracle(prog, meta, impl)
+    for c in meta.get("keyopt", []):
+        e, k, x = impl[c["e"]], impl[c["k"]], impl[c["x"]]
+        o = prog["ops"][c["e"]]["o"]
+        g = ref_get(c["key"], o)
+        if g[0] == "found" and not ref_has_template(g[1]):
+            if not is_ok(e) or dumps(e["r"][1]) != dumps(g[1]):
+                out.append(("an Option whose key is present does not evaluate to the value under it", c["e"],
+                            {"key": c["key"], "options": o, "expected": g[1], "got": e.get("r")}))
+            for which, obs in (("keys", k), ("explain", x)):
+                ks = keyset(obs)
+                if ks is None or c["key"] not in ks:
+                    out.append((f"{which}() of an Option whose key is present fails or omits the key", c["k"],
+                                {"key": c["key"], "options": o, "got": obs.get("r")}))
     nodes = {n["id"]: n for n in prog["nodes"]}
     for c in meta.get("c09", []):
         e, k, x = impl[c["e"]], impl[c["k"]], impl[c["x"]]
@@ -2360,6 +2509,57 @@ def container_reference_items(rng, n) -> List[Item]:
     return items
 
 
+def agreement_shapes_items(rng, n) -> List[Item]:
+    """shapes whose four operations are implemented side by side in the library and must stay in step: namespaces with
+    required members under underscore names (hidden from the generated documentation, not from validation), nested;
+    applications and partial applications whose FUNCTION is an expression reading options; an Option default factory
+    chosen by a switch — validate / keys / explain / evaluate on increasing sub-dictionaries"""
+    items = []
+    for i in range(n):
+        P = Prog()
+        keys: List[str] = []
+        shape = i % 4
+        if shape == 0:
+            members = []
+            for nm in rng.sample(["A", "_TOKEN", "_H", "B", "_x"], 3):
+                keys.append(f"NS.{nm}")
+                members.append((nm, P.option(f"NS.{nm}", dflt=None, nsmember=1, style="annot" if not nm.startswith("_x") else "option")))
+            members.sort(key=lambda m: 0 if P.node(m[1]).get("style") == "annot" else 1)
+            ns = P.namespace("NS", members, via="decorator")
+            root = ns if i % 8 == 0 else P.dataset([("ns", ns)], cache=P.new_cache("nocache"))
+        else:
+            fa, fb = P.fnvalue(P.free(f"fast{i}")), P.fnvalue(P.free(f"exact{i}"))
+            fexpr = P.switch(P.option("ALGO", bare=True), [("fast", fa), ("exact", fb)]) if i % 3 else \
+                P.case(P.option("ALGO"), [(P.fnvalue("eq", "fast"), fa)], fb)
+            keys += ["ALGO", "X"]
+            if shape == 1:
+                root = P.funapp(fexpr, kw=[("x", P.option("X"))])
+            elif shape == 2:
+                root = P.apply(P.option("X"), P.partial(fexpr, kw=[("y", P.option("Y", dflt=P.value(0)))]))
+            else:
+                root = P.dataset([("r", P.apply(P.option("X"), P.partial(fexpr)))], cache=P.new_cache("nocache"))
+        full: Dict[str, Any] = {}
+        for k in keys:
+            _put(full, k, "fast" if k == "ALGO" else 1)
+        order = list(keys)
+        rng.shuffle(order)
+        subs: List[Dict[str, Any]] = [{}]
+        cur: Dict[str, Any] = {}
+        for k in order:
+            _put(cur, k, ref_get(k, full)[1])
+            subs.append(copy.deepcopy(cur))
+        recs, agree = [], []
+        for o in subs:
+            P.raw_op(op="reset")
+            b = len(P.ops)
+            for op in ("validate", "keys", "explain", "evaluate", "validate", "keys", "evaluate"):
+                P.op(op, root, sort_json(o))
+            recs.append({"x": b + 2, "k": b + 1, "v": b})
+            agree.append({"v": b, "k": b + 1, "x": b + 2, "e": b + 3, "wv": b + 4, "wk": b + 5, "we": b + 6})
+        items.append((P.to_json(), {"explain": recs, "agree": agree, "root": root}))
+    return items
+
+
 def c10_programs(rng, tier) -> List[Item]:
     items = corpus_items("C10")
     items += dataset_default_items(rng, sizes(tier, 30, 200))
@@ -2372,6 +2572,7 @@ def c10_programs(rng, tier) -> List[Item]:
     items += its
     items += dataset_class_items(rng, sizes(tier, 30, 150))
     items += container_reference_items(rng, sizes(tier, 32, 96))
+    items += agreement_shapes_items(rng, sizes(tier, 32, 128))
     return items
 
 
@@ -2588,6 +2789,7 @@ def c11_programs(rng, tier) -> List[Item]:
     items += pinned_dispatch_items(rng, sizes(tier, 40, 400))
     items += namespace_explain_items(rng, sizes(tier, 20, 150))
     items += dataset_class_items(rng, sizes(tier, 40, 200))
+    items += agreement_shapes_items(rng, sizes(tier, 32, 128))
     return items
 
 
@@ -3356,6 +3558,33 @@ def front_cache_items(rng, n) -> List[Item]:
     return items
 
 
+def faulty_dispatch_items(rng, n) -> List[Item]:
+    """the dispatch of a switch / of a dataset with a default implementation is itself a dataset on the unreliable
+    backend, and the options do not allow it to be evaluated: whatever the backend claims on any of its calls
+    (exhaustively over the first four), the default branch is what is returned — as with caching off"""
+    items = []
+    scripts = [list(x) for x in itertools.product(["lieBlind", "behave", "lieExists", "failGet"], repeat=3)]
+    for i in range(n):
+        P = Prog()
+        c = P.new_cache("scripted")
+        disp = P.dataset([("k", P.option("K"))], fn_name=P.const_fn(f"sel{i}", "x"), cache=c)
+        shape = i % 3
+        if shape == 0:
+            root = P.switch(disp, [("x", P.value("sel-x"))], P.value("the-default"))
+        elif shape == 1:
+            root = P.dataset([("a", P.option("A", dflt=P.value(0)))], dispatch=disp, table=[("x", P.value("impl-x"))])
+        else:
+            root = P.cached(P.switch(disp, [("x", P.option("B", dflt=P.value(1)))], P.option("A", dflt=P.value("d"))))
+        recs = []
+        for j, o in enumerate([{}, {"A": 1}, {"K": "x"}, {}, {"K": "q"}, {"A": 2}]):
+            P.raw_op(op="script", cache=c, faults=scripts[(i * 7 + j * 3) % len(scripts)])
+            P.evaluate(root, o)
+            P.evaluate(root, o, cache_off=True)
+            recs.append((len(P.ops) - 2, len(P.ops) - 1))
+        items.append((P.to_json(), {"faulty": recs}))
+    return items
+
+
 def c17_programs(rng, tier) -> List[Item]:
     items = corpus_items("C17")
     items += getonly_items(rng, sizes(tier, 60, 400))
@@ -3363,6 +3592,7 @@ def c17_programs(rng, tier) -> List[Item]:
     cfg = Cfg(raising=False, scripted_caches=True, all_options=False)
     items += gen_items(rng, cfg, sizes(tier, 200, 3000), hist_faulty)
     items += front_cache_items(rng, sizes(tier, 24, 120))
+    items += faulty_dispatch_items(rng, sizes(tier, 48, 192))
     return items
 
 
